@@ -5,6 +5,7 @@
 verdicts: detected (exit 1 with a VIOLATION line), undecided (exit 2: outside the extractor's dialect / lost anchor; never an alarm),
           MISSED (exit 0 on a tree that breaks the property)."""
 import subprocess, os, sys, json, shutil, tempfile, re, concurrent.futures
+os.environ.setdefault("VERIF_CACHE", "/tmp/hannibal-vcache")  # memoize verifier runs by generated-file hash (corpus tools only)
 ROOT = os.path.dirname(os.path.dirname(os.path.abspath(__file__)))
 SEEDED = os.path.join(ROOT, "seeded")
 
